@@ -4,21 +4,21 @@ import json, os
 V = os.path.dirname(os.path.dirname(os.path.abspath(__file__)))
 
 CHECKS = {
- "C02": dict(level="model_checking", design="5 C02, 4.2",
+ "C02": dict(level="model_checking", design="5 C02, 4.1",
    text="TLC checks clauses R1-R7 of L4RouterAbs on every state of the code-shaped model of RouteList.Compile (all route lists of a bounded grammar x all streams x all read schedules), every terminal behaviour is replayed on the real Provision+Compile with scripted matchers/handlers and the real subroute/not modules and must be identical to the TLC-checked prediction or is judged individually by TLC; seeded random larger instances recorded from the real code are validated by TLC against the same operators.",
    note="trusts TLC, the scripted net.Conn / matchers / handlers of the harness, Caddy's module loader; matchers are abstracted as monotone threshold/position matchers",
    technique="TLA+ model of the routing loop checked with TLC; behaviour replay + trace validation against the real router"),
 
- "C05": dict(level="model_checking", design="5 C05, 3.4",
+ "C05": dict(level="model_checking", design="5 C05, 4.1, 4.2",
    text="Untimed half: clauses D1-D3/B1-B2/R4 (deadline armed for every matching read, cleared before handlers, abort only with cause, buffer bound, nothing after abort) checked by TLC on every state of the router model and on all replayed/recorded real histories. Timed half: TLC checks NotEarly/NotLate on the timed deadline model and validates, against clauses TE/TL/TC/TB/TH, timed traces of the real Server.handle (loopback TCP) and servePacket (loopback UDP) for a TLC-enumerated grid of send schedules x timeouts (40..1500 ms) x wall-clock phases.",
    note="scaled real time with one-sided tolerances (2 ms early, max(250 ms,25%) late); disturbed runs are repeated, then inconclusive; trusts Go timers and the loopback stack",
    technique="TLA+ router + timed deadline models checked with TLC; timed trace validation of the real TCP/UDP matching phase"),
- "C09": dict(level="model_checking", design="5 C09, 4.4",
+ "C09": dict(level="model_checking", design="5 C09, 4.3",
    text="TLC checks NoCrash/NoStaleDelete/OwnClientOnly/InOrder on the code-shaped model of servePacket<->packetConn (all interleavings of 2 clients, 5 datagrams, 4 associations, scaled channel capacities) and, as a vacuity self-test, that the same invariants fail on the pinned-commit protocol. The real loop runs behind a scripted PacketConn in a child process for a TLC-enumerated grid of bursts (clients x datagrams x handler read counts x sizes x reader buffer sizes x pacing); a panic is a violation; recorded histories are validated by TLC against clauses U0-U4 of L4UdpAbs.",
    note="free-running goroutines (no forced interleavings yet); the 30 s idle expiry path is covered by the model only; event order is recording order under one lock",
    technique="TLA+ model of the UDP demultiplexing goroutines checked with TLC; trace validation of the real servePacket loop"),
 
- "C13": dict(level="model_checking", design="5 C13, 4.3",
+ "C13": dict(level="model_checking", design="5 C13, 4.4",
    text="TLC checks AtMostOnce/OnlyFallThrough/NotClosedBeforeDelivery/ClosedWhenDone/NeverBoth/NoReuseWhileReferenced and the liveness property Drain (under fairness) on the code-shaped model of listener.go loop/handle/pipeConnection/Accept/Close with the buffer pool, for three connection mixes and channel capacity 1; the real ListenerWrapper (provisioned from JSON) runs around a scripted listener for a TLC-enumerated grid (connection mixes x consumer fast/slow/absent x GOMAXPROCS x stream length x close instant) and the recorded histories are validated by TLC against clauses L1-L7 of L4ListenerAbs (exactly-once delivery, intact stream from the first unconsumed byte, closure, goroutine leak).",
    note="scripted listener and connections; free-running goroutines; TLS-terminated fall-through not exercised yet",
    technique="TLA+ model of the listener-wrapper goroutines and buffer pool checked with TLC (safety + liveness); trace validation of the real ListenerWrapper"),
@@ -58,25 +58,25 @@ CHECKS = {
    note="v2 TLVs are not generated (the library rejects them); receive cases use a scripted connection",
    technique="TLA+ reference of PROXY protocol receive/send semantics; exhaustive TLC case enumeration replayed on the real handlers; trace validation"),
 
- "C08": dict(level="model_checking", design="5 C08, 4.3",
+ "C08": dict(level="model_checking", design="5 C08, 4.4",
    text="Cross-talk: TLC checks NoReuseWhileReferenced on the listener-wrapper / buffer-pool model (and that it fails with the pinned-commit behaviour); the real ListenerWrapper grid (C13's, incl. TLS-terminated hand-off, GOMAXPROCS 1..16, slow and absent consumers) is validated against clause L3 (a consumer reads only its own stream); N connections of four kinds run through ONE provisioned server (shared matchers, throttle total limiter, tee, echo) first alone then all at once, and TLC requires each connection's history (routes run, stream positions read, tee branch) to be identical and its reads to be its own stream in order; every selection policy is used by 8 goroutines at once; valid first messages of the shipped protocol matchers (one matcher instance per route) must be routed by their own route also when all connections run at once (X4). Data races: the same concurrent drivers (connections, listener, UDP bursts, two peers writing to one client) run under the Go race detector and any report with a repository frame is a violation.",
    note="the race detector is a monitor attached to the conformance drivers (a TLA+ model cannot observe Go memory-model races) and only sees executed schedules; the shipped protocol matchers (openvpn auth/crypt/crypt2, ssh, http, socks5, regexp, tls) are shared by the concurrent connections",
    technique="TLA+ buffer-pool/listener model checked with TLC; trace validation of concurrent vs. solo executions; Go race detector on the concurrent drivers"),
 
- "C14": dict(level="exploration", design="5 C14, 4.8",
+ "C14": dict(level="exploration", design="5 C04/C06/C14, 4.8",
    text="Per protocol a TLA+ reference predicate Ref(message, filters) transcribed from the wire definition and the documented filter semantics (L4Wire); TLC enumerates abstract first messages over boundary field domains (including values that violate the definition) x filter configurations exhaustively; the harness's own encoders turn them into bytes, the real matcher (provisioned from the enumerated JSON) is evaluated, and TLC judges verdict = Ref on the complete first message (clause V1).",
    note="coverage is the enumerated boundary domains, not all inputs; encoders are harness code; regular expressions are limited to pattern shapes restated in TLA+; protocols covered are listed in the evidence (by_proto)",
    technique="TLA+ wire-definition reference predicates; exhaustive TLC vector enumeration evaluated on the real matchers; trace validation"),
- "C06": dict(level="exploration", design="5 C06, 4.8",
+ "C06": dict(level="exploration", design="5 C04/C06/C14, 4.8",
    text="For every enumerated vector the real matcher is evaluated on every sampled prefix length (fresh connection preloaded through real prefetch rounds with varying segmentation), twice; TLC judges the verdict sequence: no stays no (M1), a message matching whole is never rejected on a proper prefix (M2), repeatable (M3), evaluation reads nothing from the network and restores the cursor (M4).",
    note="stream-oriented matchers only for M1/M2; prefix lengths sampled beyond 96 bytes",
    technique="TLA+ verdict-over-prefix rules; TLC-enumerated vectors evaluated on the real matchers at every prefix; trace validation"),
- "C04": dict(level="exploration", design="5 C04, 4.8",
+ "C04": dict(level="exploration", design="5 C04/C06/C14, 4.8",
    text="Every evaluation of the C14/C06 vectors (well-formed messages, field-boundary corruptions incl. inconsistent length fields, every truncation) runs under recover() with the allocation counter sampled around it, in child processes with a 3 GiB address-space limit; TLC judges: never a panic (A1), never more than 512 KiB allocated by one evaluation (A2); a child killed by the runtime (out of memory) is attributed to the vector it announced.",
-   note="grammar-derived boundary inputs, not all byte strings; handlers are covered by their own checks (C12, C16); QUIC not covered",
+   note="grammar-derived boundary inputs, not all byte strings; handlers are covered by their own checks (C12, C16, C07); the QUIC matcher is not covered (DESIGN.md section 6)",
    technique="TLA+ robustness contract over TLC-enumerated boundary vectors evaluated on the real matchers; trace validation"),
 
- "C07": dict(level="exploration", design="5 C07",
+ "C07": dict(level="exploration", design="5 C07, 4.8",
    text="TLC enumerates client TLS configurations x sni/alpn matcher configurations (L4TLS); for each a real crypto/tls client produces the ClientHello, the bytes are shown to the real matcher (provisioned from JSON), to the matcher's own parser (in-package accessor) and to a crypto/tls server (GetConfigForClient); TLC judges: server name, ALPN, supported versions, cipher suites, curves equal the server's view (T1-T5), the verdict equals the decision function applied to the server's view (T6), the placeholders equal the hello (T7). Record framing (non-handshake records never match, every proper prefix of a hello stays undecided) is judged on the tls vectors of L4Wire at every prefix.",
    note="field-extraction ground truth is crypto/tls; no byte-level mutations beyond truncation and foreign record types",
    technique="TLA+ case space and sni/alpn decision function; TLC-enumerated cases run through a real TLS client, the real matcher and a real TLS server; trace validation"),
@@ -85,9 +85,13 @@ CHECKS = {
    text="Configuration terms of a bounded grammar (L4Config: matchers with options, matcher sets, routes, handler chains incl. proxy options, socks5, nested subroute and tee, 1-2 servers, global-option and listener-wrapper forms, option-order / number-of-blocks printing choices) are enumerated exhaustively by TLC; each term IS the expected JSON; the harness prints it as a Caddyfile following the documented syntax, runs the real adapter twice, compares the adapted JSON with the term, loads it with caddy.Validate (full provisioning) and round-trips the layer4 JSON through the Go structs; TLC judges the five outcomes (F1-F5).",
    note="TLC is a bounded-exhaustive term generator here, the oracle is term = adapted JSON plus a harness-owned Caddyfile printer; undocumented Caddyfile forms are left out",
    technique="TLA+ configuration-term grammar enumerated by TLC; adapter / loader / round-trip run on every term; trace validation"),
+
+ "C18": dict(level="exploration", design="5 C18, 4.10",
+   text="The wire layouts of the 14 exported wire-message types (field order, widths, byte order, OpenVPN opcode/key-id packing, WKc length field, Winbox chunking) are TLA+ data in L4Codec with a reference serialisation Encode(T, m); TLC enumerates, per type, the base message with up to 1 (quick) / 2 (thorough) fields replaced by boundary values and, for each, the reference encoding whole, cut by 1-2 bytes and extended by 1, 2 and 257 bytes. The real ToBytes / FromBytes run on every case and TLC judges K0 (no panic), K1 (parse(serialise(m)) = m for well-formed m), K2 (serialise(parse(b)) = b for every accepted b), K3 (a length the layout excludes is rejected).",
+   note="TLC is generator and oracle of a transcribed layout table (no transition system); agreement of ToBytes with the reference layout is counted, not demanded; boundary values, not all byte strings",
+   technique="TLA+ wire-layout tables and reference serialisation; TLC-enumerated messages and byte strings through the real codecs; trace validation"),
 }
 NA = {
- "C18": "codec inverse laws (parse o serialise = id over all byte strings and field values) are encode/decode fidelity of pure functions: a TLA+ model would only restate each codec and the conformance step would be byte equality with no state, schedule or history involved; the technique family does not apply (DESIGN.md section 6)",
 }
 ALL = ["C%02d" % i for i in range(1, 19)]
 
